@@ -490,7 +490,17 @@ where
             }
             Pattern::Tuple { ref elems, .. } => {
                 let (_, field) = self.select_spanned(&**elems, |elem| elem.span);
-                self.visit_pattern(field.unwrap());
+                match field {
+                    Some(field) => self.visit_pattern(field),
+                    // The unit pattern `()`
+                    None => {
+                        self.found = if current.span.containment(self.pos) == Ordering::Equal {
+                            MatchState::Found(Match::Pattern(current))
+                        } else {
+                            MatchState::Empty
+                        };
+                    }
+                }
             }
             Pattern::Ident(_) | Pattern::Literal(_) | Pattern::Error => {
                 self.found = if current.span.containment(self.pos) == Ordering::Equal {
